@@ -277,8 +277,21 @@ def kernel_case(rng, tier):
         lb = rng.choice([3, 3, 4, 4, 5, 5, 6, 7, 8, 9, 11, 13, 16, 17, 23, 24, 25, 26, 27, 33, 48, 49, 50, 51, 64, 65, 97, 100, 192, 193])
         la = rng.choice([lb, lb, lb, lb + 1, lb + 2, 2 * lb - 1, 2 * lb, 2 * lb + 1, 3 * lb + 2, lb + rng.below(3 * lb)])
     elif which == 3:
-        lb = rng.choice([16, 16, 17, 18, 19, 20, 21, 22, 23, 24, 25, 26, 27, 28, 29, 31, 32, 34, 40, 47, 48, 49, 50, 64, 70, 71, 72, 73, 74, 75, 100, 193, 194, 195, 200])
+        lb = rng.choice([16, 16, 17, 18, 19, 20, 21, 22, 23, 24, 25, 26, 27, 28, 29, 31, 32, 34, 40, 47, 48, 49, 50, 64, 70, 71, 72, 73, 74, 75, 100, 193, 194, 195, 200,
+                         573, 576, 577])
         la = rng.choice([lb, lb, lb, lb, lb + 1, lb + 15, lb + 16, lb + 17, 2 * lb - 1, 2 * lb, 2 * lb + 1, 2 * lb + 16, 3 * lb + 2, lb + rng.below(3 * lb)])
+    elif rng.chance(1, 2):
+        # the size dispatch at every threshold -1/0/+1 (24/25 schoolbook|Karatsuba, 192/193 Karatsuba|Toom-3), balanced and
+        # unbalanced (chunks of len b + a tail that re-enters the dispatch in another class, possibly with swapped operands),
+        # and Toom-3 whose five recursive products (n3 + 1 words) fall on either side of 192/193 (n = 570..579)
+        lb = rng.choice([23, 24, 25, 26, 191, 192, 193, 194, 195, 196, 207, 208]) if rng.chance(3, 4) else rng.choice([570, 573, 574, 575, 576, 577, 578, 579])
+        la = rng.choice([lb, lb, lb + 1, lb + 2, lb + 23, lb + 24, lb + 25, lb + 26, 2 * lb - 1, 2 * lb, 2 * lb + 1, 2 * lb + 24, 2 * lb + 25,
+                         3 * lb, 3 * lb + 1, 576, 577, lb + 191, lb + 192, lb + 193, lb + rng.below(2 * lb)])
+        la = max(la, lb)
+        if lb > 500:
+            la = rng.choice([lb, lb, lb + 1, lb + 30])
+        if rng.chance(1, 3):
+            la, lb = lb, la  # which=0 swaps internally
     else:
         lb = size(rng, tier, big=False)
         la = size(rng, tier)
@@ -317,6 +330,31 @@ def kernel_case(rng, tier):
         c &= (1 << (n * W)) - 1
     c = min(max(0, c), (1 << (n * W)) - 1)
     return "kmul %x %d %x %x %s %s %s" % (which, rng.below(2), la, lb, hx(c), hx(a), hx(b))
+
+
+def mem_case(rng, tier):
+    """scratch memory of mul::add_signed_mul: lengths around the thresholds, the Toom-3 recursion classes, unbalanced pairs"""
+    k = rng.below(6)
+    if k == 0:
+        lb = rng.choice([1, 2, 3, 23, 24, 25, 26, 27, 48, 49, 50, 51, 95, 96, 97, 127, 128, 129, 191, 192])
+    elif k == 1:
+        lb = rng.choice([193, 194, 195, 196, 197, 198, 255, 256, 257, 383, 384, 385, 511, 512, 513, 570, 573, 574, 575, 576, 577, 578, 600])
+    elif k == 2:
+        lb = rng.range(25, 700)
+    elif k == 3:
+        lb = rng.choice([1023, 1024, 1025, 1700, 1720, 1727, 1728, 1729, 2047, 2048, 2049]) if tier == "thorough" else rng.choice([729, 730, 731, 1023, 1024, 1025])
+    elif k == 4:
+        lb = rng.choice([24, 25, 192, 193, 200, 300])
+    else:
+        lb = rng.range(1, 260)
+    la = lb
+    if k >= 4 or rng.chance(1, 4):
+        la = rng.choice([lb + 1, lb + 24, lb + 25, lb + 192, lb + 193, 2 * lb, 2 * lb + 25, 2 * lb + 193, 3 * lb + 30, lb + rng.below(2 * lb + 1)])
+        if la * lb > 600000:
+            la = lb + 25
+    if rng.chance(1, 4):
+        la, lb = lb, la
+    return "kmem %x %x" % (la, lb)
 
 
 def gen_cases(rng, tier, n):
@@ -409,8 +447,10 @@ def gen_cases(rng, tier, n):
                 bb = bits[ty]
                 p = rng.choice([0, 1, -1, (1 << (bb - 1)) - 1, -(1 << (bb - 1)), sgn(rng, rng.bits(bb - 1))])
                 out.append("iprim_i %s %s %s %s %s" % (ty, side, o, hx(sgn(rng, x)), hx(p)))
-        elif k < 97:
+        elif k < 96:
             out.append(kernel_case(rng, tier))
+        elif k < 97:
+            out.append(mem_case(rng, tier))
         else:
             la = rng.choice([2, 2, 3, 4, 5, 8, 16, 29, 30, 31, 32, 33, 48, 49, 60, 61, 90, 192, 193])
             a = rng.choice([(1 << (la * W)) - 1, gen_mag(rng, la), rng.bits(la * W), rng.bits(rng.range(1, la * W))])
